@@ -395,6 +395,31 @@ func Guard(f func() *Failure) (fail *Failure) {
 	return f()
 }
 
+var (
+	pendingFile *os.File
+	pendingOnce sync.Once
+)
+
+// MarkPending records the case that is about to be evaluated in $VERIF_OUT/pending.json and
+// returns a function that clears the record. If the process dies inside the check (fatal
+// runtime error: out of memory under the address-space limit, stack overflow, concurrent map
+// access), the driver finds the record and reports the case as a violation instead of an
+// anonymous infrastructure fault.
+func MarkPending(property string, caseJSON []byte) func() {
+	pendingOnce.Do(func() {
+		if d := outDir(); d != "" {
+			pendingFile, _ = os.OpenFile(filepath.Join(d, "pending.json"), os.O_CREATE|os.O_RDWR|os.O_TRUNC, 0o644)
+		}
+	})
+	if pendingFile == nil {
+		return func() {}
+	}
+	b := append(append([]byte(`{"property":"`+property+`","case":`), caseJSON...), '}')
+	_ = pendingFile.Truncate(0)
+	_, _ = pendingFile.WriteAt(b, 0)
+	return func() { _ = pendingFile.Truncate(0) }
+}
+
 // Eval evaluates one case of a property. check must be a pure function of c.
 // source is "rapid", "quota", "exhaustive", "fuzz" or "replay".
 func Eval[C any](t TB, property, source string, c C, check func(C) Outcome) {
@@ -403,6 +428,8 @@ func Eval[C any](t TB, property, source string, c C, check func(C) Outcome) {
 		t.Fatalf("harness: cannot marshal case: %v", err)
 	}
 	var o Outcome
+	clear := MarkPending(property, cj)
+	defer clear()
 	if f := Guard(func() *Failure { o = check(c); return nil }); f != nil {
 		o.Fail = f
 		o.Labels = append(o.Labels, "panicked")
